@@ -272,6 +272,11 @@ def build(P, attrs, name="top", is_async=False, mc=2, built=None, _counter=None,
     env = {"_interp": interp}
     exec(compile(src, f"<prog {name}>", "exec"), env)  # noqa: S102
     env[name].__qualname__ = name
+    if share is not None and name != "top":
+        # nested DAGs described by functions of the same bare name that live in different namespaces (ns1.sub, ns2.sub):
+        # the qualified name is what keeps their nodes apart
+        env[name].__name__ = "sub"
+        env[name].__qualname__ = f"ns{name[3:]}.sub"
     d = dag(env[name], max_concurrency=mc, is_async=is_async)
     flat = [x for j in sorted(local) for x in local[j]]
     return d, flat
